@@ -94,6 +94,10 @@ def make_problem(inst):
                 self._ires = None
             else:
                 self._ires = ca.vertcat(*[expr(eq) for eq in inst["init_eqs"]])
+            # optimisation variables / inputs that are NOT part of the DAE: they enlarge the decision
+            # vector and the mapped input row, and must not disturb the model rows
+            self._pv = [sym("pv%d" % i) for i in range(inst.get("npv", 0))]
+            self._ev = [sym("ev%d" % i) for i in range(inst.get("nev", 0))]
             self._ar = AliasRelation()
             self._times = np.array(inst["ts"], dtype=float)
             super().__init__()
@@ -105,6 +109,14 @@ def make_problem(inst):
         @property
         def dae_residual(self):
             return self._res
+
+        @property
+        def path_variables(self):
+            return self._pv
+
+        @property
+        def extra_variables(self):
+            return self._ev
 
         @property
         def initial_residual(self):
@@ -139,11 +151,17 @@ def make_problem(inst):
                 d[n] = inst["pvals"][ensemble_member][j]
             return d
 
+        def dynamic_parameters(self):
+            return [self._mx["parameters"][j] for j in inst.get("dyn") or []]
+
         def constant_inputs(self, ensemble_member):
             d = AliasDict(self._ar)
             for j, n in enumerate(cs):
                 s = inst["cin"][ensemble_member][j]
                 d[n] = Timeseries(np.array(s["times"], dtype=float), np.array(s["values"], dtype=float))
+            for j in range(inst.get("nxc", 0)):
+                d["xc%d" % j] = Timeseries(self._times, np.array([3.0 + j + ensemble_member + 0.5 * i
+                                                                    for i in range(len(self._times))]))
             return d
 
         def history(self, ensemble_member):
@@ -442,6 +460,15 @@ def gen_instance(rng, big=False, kind=None):
     inst["history"] = hist
     inst["own_times"] = {}
     inst["bounds"] = {}
+    inst["dyn"] = sorted(j for j in range(npar) if rng.random() < 0.25)
+    if rng.random() < 0.35:
+        inst["npv"] = rng.randint(0, 2)
+        inst["nev"] = rng.randint(0, 1)
+        inst["nxc"] = rng.randint(0, 1)
+        for i in range(inst["npv"]):
+            inst["nom"]["pv%d" % i] = rng.choice(NOMS)
+        for i in range(inst["nev"]):
+            inst["nom"]["ev%d" % i] = rng.choice(NOMS)
     if kind == "solve":
         for v in vs:
             inst["bounds"][v] = (-1.0e4, 1.0e4)
@@ -456,8 +483,9 @@ def add_own_times(rng, inst):
     if n < 3:
         return False
     done = False
-    for u in us:
-        if rng.random() < 0.7:
+    for u in us + al + xs:
+        # mostly controls (the documented use); the code path is the same for every collocated variable
+        if rng.random() < (0.7 if u in us else 0.15):
             inner = [i for i in range(1, n - 1) if rng.random() < 0.4]
             if len(inner) == n - 2:
                 inner = inner[:-1]
